@@ -231,3 +231,15 @@ def predicate(op, il, mres, tag):
 
 def matches_known(k, op, il, mres, tag):
     return False
+
+
+# --- TSX conc ops (concurrent signing through ONE shared time-stamper: limiter, cache, pools): a second
+# correspondence, checklib/models/tsx.py; theorems Relic.Props.C14.shared_stamper_order_irrelevant / shared_limiter_only_delays
+import sys as _sys
+_sys.path.insert(0, os.path.join(os.path.dirname(os.path.dirname(os.path.abspath(__file__))), "models"))
+import tsx as _tsx
+_run_c14 = run
+
+
+def run(ctx):
+    return _tsx.combined(ctx, _run_c14, "C14")
